@@ -196,7 +196,9 @@ func Iif[T any](predicate func() bool, source1, source2 Observable[T]) func() Ob
 // DefaultIfEmpty emits a default value if the source observable emits no items.
 // Play: https://go.dev/play/p/WDh807OLPWv
 func DefaultIfEmpty[T any](defaultValue T) func(Observable[T]) Observable[T] {
-	return DefaultIfEmptyWithContext(context.Background(), defaultValue)
+	// A nil default context means: deliver the default value with the context
+	// of the completion notification (which derives from the subscription context).
+	return DefaultIfEmptyWithContext(nil, defaultValue) //nolint:staticcheck
 }
 
 // DefaultIfEmptyWithContext emits a default value if the source observable emits no items.
@@ -216,7 +218,12 @@ func DefaultIfEmptyWithContext[T any](defaultCtx context.Context, defaultValue T
 					destination.ErrorWithContext,
 					func(ctx context.Context) {
 						if empty {
-							destination.NextWithContext(defaultCtx, defaultValue)
+							valueCtx := defaultCtx
+							if valueCtx == nil {
+								valueCtx = ctx
+							}
+
+							destination.NextWithContext(valueCtx, defaultValue)
 						}
 
 						destination.CompleteWithContext(ctx)
